@@ -47,7 +47,12 @@ Init == /\ vals = [v \in Vars |-> IF v = "z" THEN Undef ELSE IF v = "x" THEN 1 E
 Top == ctxs[Len(ctxs)]
 Pop(s) == SubSeq(s, 1, Len(s) - 1)
 Log(a) == hist' = Append(hist, a)
-Rec(a, v, e, c) == [a |-> a, v |-> v, e |-> e, c |-> c]
+Rec(a, v, e, c) == [a |-> a, v |-> v, e |-> e, c |-> c, g |-> -1]
+\* the guard that is active while the condition of an _elif is evaluated: the previous arm has been LEFT by then, so it is the
+\* conjunction of the conditions of the enclosing contexts only (-1: no guard at all)
+RECURSIVE CondProd(_, _)
+CondProd(cs, k) == IF k = 0 THEN 1 ELSE cs[k].cond * CondProd(cs, k - 1)
+EnclosingGuard == IF Len(ctxs) <= 1 THEN -1 ELSE CondProd(ctxs, Len(ctxs) - 1)
 
 \* ---- the mechanism: BranchContext.enter / exit
 \* frame: [kind, cond (this arm's condition), icond (no earlier arm taken and not this one), bak, nodef (or "none"), haselse]
@@ -84,7 +89,7 @@ AElif(c) ==
        /\ vals' = r.vals /\ err' = r.err
        /\ ctxs' = Append(Pop(ctxs), [Enter("if", IF Top.icond = 1 THEN c ELSE 0, IF Top.icond = 1 THEN 1 - c ELSE 0, r.nodef, FALSE) EXCEPT !.bak = r.vals])
     /\ nfl' = Append(Pop(nfl), [kind |-> "if", taken |-> (NTop.taken \/ c = 1), active |-> (~NTop.taken /\ c = 1)])
-    /\ UNCHANGED nat /\ Log(Rec("elif", "", "", c))
+    /\ UNCHANGED nat /\ Log([Rec("elif", "", "", c) EXCEPT !.g = EnclosingGuard])
 
 AElse ==
     /\ Can /\ Depth > 0 /\ Top.kind = "if" /\ Top.icond # -1
